@@ -315,7 +315,8 @@ def plan(idx, files_re=None, funcs_re=None, max_harnesses=10):
         # every harness that DECLARES the function as under contract (the richest shapes first: they kill fastest),
         # then a few of the other harnesses that merely execute it
         decl = sorted([hn for hn in hs if q in idx['harnesses'][hn]['declared']], key=lambda hn: -idx['harnesses'][hn]['wall_s'])
-        other = sorted([hn for hn in hs if hn not in decl], key=lambda hn: idx['harnesses'][hn]['wall_s'])
+        fam = {hn.split('.')[0] for hn in decl}       # contract family of the declaring harnesses ('c03', 'k', 'e', ...)
+        other = sorted([hn for hn in hs if hn not in decl], key=lambda hn: (hn.split('.')[0] not in fam, idx['harnesses'][hn]['wall_s']))
         chosen = decl[:48] + other[:max_harnesses]
         tasks.append((file, qual, chosen))
     return tasks
